@@ -379,6 +379,8 @@ func (w *lw) afterCrash(op h.Op) {
 		}
 	}
 	m := w.model
+	gone := map[string]bool{}   // ids (of op.Loc) found in their new, absent state
+	stayed := map[string]bool{} // ids (of op.Loc) found in their old, present state
 	for ln, ids := range named {
 		loc := w.eng.Loc(ln)
 		l := m.Loc(ln)
@@ -405,11 +407,27 @@ func (w *lw) afterCrash(op h.Op) {
 					m.AdoptWritten(ln, nit)
 				} else {
 					delete(l.Items, id)
+					if ln == op.Loc {
+						gone[id] = true
+					}
 				}
 			case oldK:
 				// keeps its old state
+				if ln == op.Loc && oldK != "" {
+					stayed[id] = true
+				}
 			default:
 				w.fail("crash-corrupts-item", op.K, "after a crash inside %s, %s/%s = %s which is neither its old state %s nor its new state %s", op.K, ln, id, g, oldK, newK)
+			}
+		}
+	}
+	if (op.K == "remfact" || op.K == "remrule") && stayed[op.Id] {
+		// "an interrupted operation affects only the ids it names": a removal
+		// that was cut short may have removed the named item and not yet its
+		// dependents, never the other way round
+		for id := range gone {
+			if id != op.Id {
+				w.fail("crash-removed-dependent-before-target", op.K, "after a crash inside %s(%s), %s is gone from %s although %s itself (the only id the operation names) is still there", op.K, op.Id, id, op.Loc, op.Id)
 			}
 		}
 	}
@@ -1587,6 +1605,8 @@ func (w *lw) checkDispatch(locName string, event map[string]interface{}, p h.Pro
 	}
 	want, merr := w.model.Dispatch(locName, event, p)
 	if h.DontCare(merr) {
+		// which rules ran is open, so is what their actions wrote
+		w.actionTargetsUncertain(locName)
 		return
 	}
 	failed := cond != nil
@@ -1643,6 +1663,36 @@ func (w *lw) checkDispatch(locName string, event map[string]interface{}, p h.Pro
 		w.res.Nontrivial = append(w.res.Nontrivial, "dispatch|"+h.Canon(event)+"|"+w.model.StateKey())
 	}
 	return
+}
+
+// actionTargetsUncertain marks, in loc, every id that an action of a rule
+// visible from loc writes or removes as a don't-care.
+func (w *lw) actionTargetsUncertain(loc string) {
+	names, _ := w.model.Ancestors(loc)
+	for _, n := range names {
+		for _, it := range w.model.Loc(n).Items {
+			rule := h.RuleOf(it)
+			if rule == nil {
+				continue
+			}
+			var acts []interface{}
+			if a, ok := rule["action"]; ok {
+				acts = append(acts, a)
+			}
+			if as, ok := rule["actions"].([]interface{}); ok {
+				acts = append(acts, as...)
+			}
+			for _, a := range acts {
+				am, _ := a.(map[string]interface{})
+				code, _ := am["code"].(string)
+				for _, sub := range actOps(code) {
+					if sub.Id != "" {
+						w.model.MarkFault(loc, sub.Id)
+					}
+				}
+			}
+		}
+	}
 }
 
 // constActionValues returns the canonical values of a rule's actions when
@@ -1836,7 +1886,9 @@ func (w *lw) after(op h.Op) {
 		doDispatch := func() {
 			if w.prof.Dispatch {
 				for _, ev := range w.batteryMaps("events") {
-					w.checkDispatch(ln, ev, p, op)
+					want := w.checkDispatch(ln, ev, p, op)
+					// a battery event runs actions like any other event
+					w.applyActionEffects(h.Op{K: "event", Loc: ln, RK: p.RK, WK: p.WK}, want)
 				}
 			}
 		}
